@@ -348,6 +348,7 @@ for op, props, d in (("REQ", ["C14"], "client_receive: the request datagram is A
                   "main.0:10", "main.1:10", "main.2:10", "main.3:10", "strlen.0:14", "strcpy.0:14", "strcmp.0:10", "memcmp.0:10", "memcpy.0:18"], desc=d + " [scaled twin: CTL_PROTO_MAX_ATTRS 64->3, CTL_ATTR_VALUE_MAX 512->8, XCM_ATTR_NAME_MAX 64->8]")
 for _n in (-1, 3, 93, 96, 100, 107, 108, 115):
     ob("ctl.create_path.%s" % ("unset" if _n < 0 else "n%d" % _n), "ctl/ctl_h.c", ["-DOP_CREATE_PATH", "-DENVLEN=%d" % _n], ["C08", "C14"], unwind=130, scaled=CTL_SC, inc=["common"],
+       tier=("quick" if _n in (-1, 93, 100, 108) else "thorough"),
        desc="ctl_create over the REAL common_ctl.c (ctl_get_dir, ctl_derive_path) with XCM_CTL %s, any pid and socket id < 100000: no abort, the control socket is bound to the complete path <dir>/ctl-<pid>-<id> if that fits sockaddr_un and is not created otherwise" % ("unset" if _n < 0 else "naming a directory of %d characters" % _n))
 PROPERTY_META["C14"] = {"assumptions": ["ctl.c over mocks of xcm_attr_get/xcm_attr_get_all that may return anything the attribute layer can (C10 decides what that layer guarantees)",
                                         "protocol constants scaled (see obligation descriptions): the claim is for the same source text with smaller tables; the driver checks each substitution hits exactly one #define",
